@@ -10,8 +10,15 @@ CONFIGS = [(family.SEQ, None),
            (dict(threads=2, seminaive=True, enc="plain"), sess.PAR0)]
 
 
+def writes(tier):
+    from . import models, core
+    return models.writes_sessions(150 if tier == "quick" else 3000, core.seed())
+
+
 def check(tier):
-    return family.check_family(
-        "C05", tier, "c05", [("P2", "MC_EggAbs.cfg", 3, 4)], PROFILES, CONFIGS, (30, 400),
+    return family.check_groups(
+        "C05", tier,
+        [dict(fam="c05", model_specs=[("P2", "MC_EggAbs.cfg", 3, 4)], profiles=PROFILES, configs=CONFIGS, nrand=(20, 400)),
+         dict(fam="c05w", model_specs=[("PW", "MC_EggAbs.cfg", 3, 4)], profiles=[], configs=CONFIGS, nrand=(0, 0), extra=writes)],
         ["merges limited to min, max, or, and, set-union, set-intersect and :no-merge over small integers",
          "the parallel insertion paths are forced with EGGLOG_PARALLEL_*_CUTOFF=0 in a child process"])
